@@ -15,7 +15,9 @@
   * `relay_sends_only_what_was_received`                     every history, no assumption: sent is a prefix of received
   * `ignored_is_passthrough_to_the_end`, `half_close_propagation`   … through the closing events, for admissible histories
   * `not_excluded_is_intercepted`, `passthrough_only_if_excluded`
-  * `session_decides_where_next_layer_answers`, `ignored_flight_any_segmentation`   verdict + segmentation + relay, whole history
+  * `decision_seg_independent_total`                         … without assuming that a verdict is reached
+  * `session_decides_where_next_layer_answers`, `ignored_flight_any_segmentation`, `not_excluded_flight_any_segmentation`
+                                                             verdict + segmentation + connection, whole history
   * `verdict_uses_options_in_force`, `verdict_history_independent`   one addon instance, options changed between connections
   * `tls_ignore_passthrough`                                 ClientTLSLayer `ignore_connection` branch
 -/
@@ -283,6 +285,23 @@ theorem decision_seg_independent_partial {Pat : Type} (E : Env Pat) (c : Cfg Pat
       | ok b => simp only [hf] at hd; cases hd; rw [hf] at hv; cases hv
   | ok b => exact (decision_prefix_stable E c p q ds b htcp h3 hguard hv).symm
 
+/-- **decision_seg_independent_total** — the same without the hypothesis that a verdict is reached: for EVERY non-empty
+    segmentation (TCP) such that, IF some accumulated prefix gets a verdict, that prefix has three bytes and does not end
+    inside the request line, asking segment by segment gives exactly what asking on the whole flight gives — the verdict,
+    or "need more data" when the flight is still incomplete. -/
+theorem decision_seg_independent_total {Pat : Type} (E : Env Pat) (c : Cfg Pat) (ds : Bytes) (segs : List Bytes)
+    (htcp : c.tcp = true) (hne : segs ≠ [])
+    (hguard : ∀ p, decidingPrefix (fun d => ignoreConnection E c d ds) [] segs = some p →
+        3 ≤ p.length ∧ reqLinePending p = false) :
+    askSegs (fun d => ignoreConnection E c d ds) [] segs = ignoreConnection E c segs.flatten ds := by
+  cases hd : decidingPrefix (fun d => ignoreConnection E c d ds) [] segs with
+  | some p => exact decision_seg_independent_partial E c ds segs p htcp hd (hguard p hd).1 (hguard p hd).2
+  | none =>
+    have h := decidingPrefix_none _ [] segs hd
+    rw [h]
+    have := askSegs_needMore (fun d => ignoreConnection E c d ds) [] segs hne h
+    simpa using this.symm
+
 private def cxEnv : Env Bytes := { rx := fun r h => r.isPrefixOf h, validHost := fun _ => false, quic := fun _ => .invalid }
 private def cxCfg : Cfg Bytes :=
   { tcp := true, ignorePats := [[0x61]], allowPats := [], wireguard := false, peername := none,
@@ -441,7 +460,8 @@ theorem relay_sends_only_what_was_received {Pat : Type} (E : Env Pat) (c : NCfg 
     ∀ b, ∃ t, sentTo b (run E c (Sess.init c.tcp connected) evs).out ++ t = recvFrom b evs := by
   have h := run_inv3 E c (Sess.init c.tcp connected) [] evs (init_inv c.tcp connected)
     (inv3_of_nil _ _ (fun b => by simp [Sess.init, sentTo]))
-  simpa using h
+  simp only [List.nil_append] at h
+  exact h
 
 /-- **half_close_propagation** — TCPLayer.relay_messages on EOF: while the other side can still be read the EOF is passed on
     as a half-close of the other side (once: only if that side is still writable) and the relay goes on, so the other
@@ -565,6 +585,42 @@ theorem ignored_flight_any_segmentation {Pat : Type} (E : Env Pat) (c : NCfg Pat
   · intro hp
     have := h2 (Or.inr hp) true
     exact ⟨this.1, by rw [this.2, hrecv]⟩
+
+/-- **not_excluded_flight_any_segmentation** — the counterpart (TCP): if the whole first flight is NOT excluded by the rules,
+    then for every segmentation whose deciding prefix has three bytes and does not end inside the request line the
+    connection is never handed to a pass-through layer: a stack is instantiated, it is non-empty, and every layer in it
+    makes the connection visible to addons. -/
+theorem not_excluded_flight_any_segmentation {Pat : Type} (E : Env Pat) (c : NCfg Pat) (connected : Bool)
+    (segs : List Bytes) (p : Bytes) (htcp : c.tcp = true)
+    (hd : decidingPrefix (fun d => ignoreConnection E c.toCfg d []) [] segs = some p)
+    (h3 : 3 ≤ p.length) (hguard : reqLinePending p = false)
+    (hv : ignoreConnection E c.toCfg segs.flatten [] = .ok false) :
+    let s := run E c (Sess.init c.tcp connected) (segs.map Ev.dataC)
+    s.phase ≠ .undecided ∧ s.stack ≠ [] ∧ ∀ l ∈ s.stack, l.intercepts = true := by
+  have hask : askSegs (fun d => ignoreConnection E c.toCfg d []) [] segs = .ok false := by
+    rw [decision_seg_independent_partial E c.toCfg [] segs p htcp hd h3 hguard]; exact hv
+  obtain ⟨q, hq⟩ := askSegs_notignore E c [] segs hask
+  have hs := session_decides_where_next_layer_answers E c connected segs
+  rw [hq] at hs
+  obtain ⟨hstack, hphase⟩ := hs
+  have hint : ∀ dc, intercept E c dc [] ≠ [] ∧ ∀ l ∈ intercept E c dc [], l.intercepts = true := by
+    intro dc
+    -- `intercept` never builds a pass-through layer, whatever the verdict was
+    unfold intercept
+    cases c.top with
+    | reverse sc =>
+      cases sc <;> simp only [reverseStack] <;>
+        cases c.tcp <;> cases C13.startsLike false dc <;> cases C13.startsLike true dc <;> simp [LK.intercepts]
+    | httpProxy => simp only [explicitStack]; cases c.tcp <;> cases C13.startsLike false dc <;> simp [LK.intercepts]
+    | upstream => simp only [explicitStack]; cases c.tcp <;> cases C13.startsLike false dc <;> simp [LK.intercepts]
+    | other =>
+      simp only
+      repeat' split
+      all_goals simp [LK.intercepts]
+  refine ⟨?_, ?_, ?_⟩
+  · rcases hphase with h | h | h <;> simp [h]
+  · rw [hstack]; exact (hint q).1
+  · rw [hstack]; exact (hint q).2
 
 /-! ## histories on one addon instance -/
 
